@@ -403,10 +403,44 @@ def reduce_candidate(cx, cand, budget_s):
         rn = cx.pool.run(jobs) if cx.pool else [None] * len(jobs)
         return [pred(x, y or {"fatal": "none"}) for x, y in zip(rb, rn)]
     try:
-        return reducer.reduce(cand["src"], batch, budget_s=budget_s)
+        src = reduce_steps(cand["src"], batch, budget_s * 0.5)
+        return reducer.reduce(src, batch, budget_s=budget_s * 0.5)
     except Exception as e:  # reducer trouble never hides the finding
         cx.chk.inconc("reducer:" + type(e).__name__)
         return cand["src"]
+
+
+def reduce_steps(src, batch, budget_s):
+    """history-level delta debugging: drops whole step lines (chunks of n/2, n/4, .. 1) while the failure stays"""
+    t_end = time.time() + budget_s
+    lines = [l for l in src.split("\n") if l.strip()]
+    header, steps = lines[0], lines[1:]
+
+    def text(st):
+        return "\n".join([header] + st) + "\n"
+    size = max(1, len(steps) // 2)
+    while size >= 1 and steps and time.time() < t_end:
+        cands = [steps[:i] + steps[i + size:] for i in range(0, len(steps), size)]
+        res = batch([text(c) for c in cands])
+        ok = [c for c, r in zip(cands, res) if r]
+        if ok:
+            # try to drop all individually droppable chunks at once
+            if len(ok) > 1:
+                drop = set()
+                for i, r in zip(range(0, len(steps), size), res):
+                    if r:
+                        drop.update(range(i, i + size))
+                both = [s for j, s in enumerate(steps) if j not in drop]
+                if batch([text(both)])[0]:
+                    steps = both
+                else:
+                    steps = ok[0]
+            else:
+                steps = ok[0]
+            size = min(size, max(1, len(steps) // 2)) if size > 1 else 1
+        else:
+            size //= 2
+    return text(steps)
 
 
 def report_candidates(cx, tier):
